@@ -595,6 +595,7 @@ func init() {
 				items = append(items, Item{Name: e.name, MaxDevs: -1, Run: c11Scenario(i)})
 			}
 			items = append(items, Item{Name: "frontends+custom", MaxDevs: -1, Run: c11FrontScenario})
+			items = append(items, Item{Name: "entry-points-under-an-installed-formatter", MaxDevs: -1, Run: c11EntryPointsScenario})
 			return items
 		},
 	})
